@@ -796,4 +796,87 @@ theorem linkSingle_case {v : View} (h : ChainWF norm v.chain) {id id' : String} 
       exact searchW_case norm (viewRoot_wf norm w ue) e
   rw [this]
 
+/-! ### merged listings (completion) as declaration lists -/
+
+/-- each name once (its most recent declaration), in declaration order -/
+def liveD : List Decl → List Decl
+  | [] => []
+  | x :: rest => if rest.any (fun y => norm y.id = norm x.id) then liveD rest else x :: liveD rest
+
+/-- nearest table first; a name already listed hides the farther declarations of that name -/
+def mergedD : List (List Decl) → List Decl
+  | [] => []
+  | ds :: rest => liveD norm ds ++ (mergedD rest).filter (fun y => !(ds.any (fun x => norm x.id = norm y.id)))
+
+theorem live_toSym (ds : List Decl) : Spec.live norm (ds.map toSym) = (liveD norm ds).map toSym := by
+  induction ds with
+  | nil => rfl
+  | cons d ds ih =>
+    simp only [List.map_cons, Spec.live, liveD, List.any_map, Function.comp_def]
+    have e : (ds.any fun x => decide (norm (toSym x).id = norm (toSym d).id)) = (ds.any fun y => decide (norm y.id = norm d.id)) := rfl
+    rw [e]
+    split <;> simp [ih]
+
+theorem merged_toSym (Ls : List (List Decl)) :
+    Spec.merged norm (Ls.map (fun ds => ds.map toSym)) = (mergedD norm Ls).map toSym := by
+  induction Ls with
+  | nil => rfl
+  | cons ds Ls ih =>
+    simp only [List.map_cons, Spec.merged, mergedD, live_toSym, ih, List.map_append, List.filter_map,
+      List.any_map, Function.comp_def, toSym]
+    rfl
+
+theorem liveD_sub (ds : List Decl) : ∀ d ∈ liveD norm ds, d ∈ ds := by
+  induction ds with
+  | nil => simp [liveD]
+  | cons x ds ih =>
+    intro d hd
+    simp only [liveD] at hd
+    split at hd
+    · exact List.mem_cons_of_mem _ (ih d hd)
+    · rcases List.mem_cons.mp hd with rfl | hd
+      · exact List.mem_cons_self
+      · exact List.mem_cons_of_mem _ (ih d hd)
+
+theorem mergedD_sub (Ls : List (List Decl)) : ∀ d ∈ mergedD norm Ls, ∃ ds ∈ Ls, d ∈ ds := by
+  induction Ls with
+  | nil => simp [mergedD]
+  | cons ds Ls ih =>
+    intro d hd
+    simp only [mergedD, List.mem_append, List.mem_filter] at hd
+    rcases hd with hd | ⟨hd, _⟩
+    · exact ⟨ds, List.mem_cons_self, liveD_sub norm ds d hd⟩
+    · obtain ⟨ds', h1, h2⟩ := ih d hd
+      exact ⟨ds', List.mem_cons_of_mem _ h1, h2⟩
+
+/-- `generate_completion_items_*` on a well-formed workspace: the merged listing of the chain's
+    declaration lists, filtered by symbol type, labels as declared -/
+theorem labels_is (h : WellFormedWs norm w) {v : View} {L} (hc : ChainIs norm v.chain L) (hL : LayersOK w L)
+    (keep : SK → Bool) :
+    labels norm w keep v = ((mergedD norm (L.map (·.2))).filter (fun d => keep d.kind)).map (·.id) := by
+  unfold labels
+  rw [Gold.C18.collect_wf norm hc.1]
+  have habs : Gold.C18.abs v.chain = (L.map (·.2)).map (fun ds => ds.map toSym) := by
+    have := congrArg (List.map (·.2)) hc.2
+    simpa [Gold.C18.abs, List.map_map, Function.comp_def] using this
+  rw [habs, merged_toSym, List.filter_map, List.map_map]
+  have hk : ∀ d ∈ mergedD norm (L.map (·.2)), kindOf w (toSym d) = some d.kind := by
+    intro d hd
+    obtain ⟨ds, hds, hdd⟩ := mergedD_sub norm _ d hd
+    obtain ⟨p, hp, rfl⟩ := List.mem_map.mp hds
+    simp [kindOf, toSym, findDecl_self h.2.2 ((hL p hp).2 d hdd)]
+  generalize mergedD norm (L.map (·.2)) = M at hk ⊢
+  have hf : M.filter ((fun x => (kindOf w x).any keep) ∘ toSym)
+      = M.filter (fun d => keep d.kind) := by
+    apply List.filter_congr
+    intro d hd
+    simp [Function.comp, hk d hd]
+  rw [hf]
+  simp [Function.comp_def, toSym]
+
+/-- the merged listing depends on no identifier at all: nothing to re-case in a completion request
+    except the left operand (see `Props/C11.lean`) -/
+theorem mergedD_cons (ds : List Decl) (Ls : List (List Decl)) :
+    mergedD norm (ds :: Ls) = liveD norm ds ++ (mergedD norm Ls).filter (fun y => !(ds.any (fun x => norm x.id = norm y.id))) := rfl
+
 end Gold.Scope
